@@ -208,3 +208,72 @@ GROUPS.append(Group('A3b', 's[:k] + s[k:] on concrete tables with the real slici
                     'setting objects, the seam merge is exercised)', ['C05'], 'B',
                     ['AnsiString.__getitem__', 'AnsiString.__iadd__', 'AnsiString.__add__', 'AnsiString.__init__'],
                     sjb_items, sjb_task, bounds='change points N<=3, objects<=2/3; k, keys, length symbolic', assumes=['SL']))
+
+
+# ============================================================================================= X1: queries
+QUERY_METHODS = {
+    '__len__': [], '__contains__': ['operand'],
+    'count': ['str', 'optint', 'optint'], 'find': ['str', 'optint', 'optint'], 'rfind': ['str', 'optint', 'optint'],
+    'index': ['str', 'optint', 'optint'], 'rindex': ['str', 'optint', 'optint'], 'endswith': ['str', 'optint', 'optint'],
+    'isalnum': [], 'isalpha': [], 'isascii': [], 'isdecimal': [], 'isdigit': [], 'isidentifier': [], 'islower': [],
+    'isnumeric': [], 'isprintable': [], 'isspace': [], 'istitle': [], 'isupper': [],
+}
+CL_X1 = [Clause('same-result-as-str-on-base-text', 'post_query_agrees')]
+RAISES_X1 = {'ValueError': 'raises_like_str', 'TypeError': 'raises_like_str'}
+
+
+def x1_items(tier):
+    return [[m] for m in sorted(QUERY_METHODS)]
+
+
+def x1_task(envr, item):
+    mname = item[0]
+
+    def body(c):
+        from pyvc.argkinds import mk_arg
+        s, info = abs_string(c, 'a')
+        args = [mk_arg(c, k, 'a%d' % i) for i, k in enumerate(QUERY_METHODS[mname])]
+        run_contract(envr, c, 'AnsiString.' + mname, s, args, {}, CL_X1, raises=RAISES_X1, frame=('self',),
+                     fields={'mname': mname, 'margs': tuple(args)})
+    def pool(envr):
+        import itertools
+        from pyvc.argkinds import native_pool, native_receivers
+        pools = [native_pool(envr, k) for k in QUERY_METHODS[mname]]
+        for recv in native_receivers(envr):
+            for combo in itertools.product(*pools):
+                yield ('AnsiString.' + mname, recv, list(combo), {}, {'mname': mname, 'margs': tuple(combo)})
+    return ContractRun(body, CL_X1, raises=RAISES_X1, frame=('self',), use=('ABS',), pool=pool)
+
+
+GROUPS.append(Group('X1', 'len, in, count, find, rfind, index, rindex, endswith, is* return what str returns on the base text',
+                    ['C10'], 'U', ['AnsiString.' + m for m in sorted(QUERY_METHODS)], x1_items, x1_task,
+                    bounds='none: the str method is an uninterpreted function of the base text and all arguments, so a '
+                    'dropped, swapped or altered argument is a counter-model'))
+
+# ============================================================================================= X2/Y3: case methods
+CASE_METHODS = ('capitalize', 'casefold', 'lower', 'upper', 'swapcase', 'title')
+CL_CASE = [Clause('text-is-str-method-of-base-text', 'post_case_text'),
+           Clause('settings-kept-at-every-position', 'post_case_view', forall='case_k_range')]
+
+
+def case_items(tier):
+    return [[m] for m in CASE_METHODS]
+
+
+def case_task(envr, item):
+    mname = item[0]
+
+    def body(c):
+        s, info = abs_string(c, 'a')
+        run_contract(envr, c, 'AnsiString.' + mname, s, [c.named_bool('inplace')], {}, CL_CASE, fields={'mname': mname})
+    def pool(envr):
+        from pyvc.argkinds import native_receivers
+        for base in native_receivers(envr):
+            for inp in (False, True):
+                yield ('AnsiString.' + mname, base, [inp], {}, {'mname': mname})
+    return ContractRun(body, CL_CASE, use=('ABS',), pool=pool)
+
+
+GROUPS.append(Group('X2c', 'case conversions: text as str does it; settings kept at every position when the length is kept',
+                    ['C10', 'C11'], 'U', ['AnsiString.' + m for m in CASE_METHODS], case_items, case_task,
+                    bounds='none (str case mapping uninterpreted: the library returns what str returns)'))
